@@ -449,6 +449,22 @@ def case_kdf(m, layout, variant_a, klen, clen, outlen):
     return None
 
 
+def case_kdf_inc(m, layout, variant_a, klen, clen, declared, chunks):
+    """incremental KDF: init with a declared output length (0 = arbitrary), squeeze in chunks"""
+    a = "a" if variant_a else ""
+    R = modes.Run(m, layout)
+    K, C = R.buf("K", klen), R.buf("C", clen)
+    n = sum(chunks)
+    out = R.out(n)
+    st = R.obj(R.struct_size("ascon_kdf%s_state_t" % a))
+    R.call("ascon_kdf%s_init" % a, st, K, klen, C if clen else None, clen, declared)
+    _squeeze_chunks(R, "ascon_kdf%s_squeeze" % a, st, out, chunks)
+    d = modes.first_diff(R.read(out, n), R.spec.cxof(variant_a, b"KDF", SB("C", clen), SB("K", klen), n, declared))
+    if d:
+        return ("kdf-incremental", "declared output length %d, squeezed as %s: output differs at %s" % (declared, list(chunks), d))
+    return None
+
+
 def case_pbkdf2(m, layout, hmac, plen, slen, count, outlen):
     R = modes.Run(m, layout)
     P, S = R.buf("P", plen), R.buf("S", slen)
@@ -509,6 +525,20 @@ def case_isap(m, layout, alg, adlen, mlen):
     # save / load round trip and decrypt with the reloaded key
     saved = R.out(80)
     R.call(prefix + "_aead_save_key", pk, saved)
+    if R.read(pk, 80) != before:
+        return ("key-modified", "the pre-computed key object is modified by saving it: it no longer behaves like the original")
+    # the saved form is the canonical (big-endian) bytes of the two pre-computed states, whatever the back end's layout
+    from .sponge import ISAP, isap_ivs, ZERO
+    iv_a, iv_ka, iv_ke = isap_ivs(alg)
+    want = []
+    for iv in (iv_ke, iv_ka):
+        S = list(SB("K", klen)) + list(cbytes(iv))
+        S = S + [ZERO] * (320 - len(S))
+        want += list(R.spec.P(S, ISAP[alg]["sk"]))
+    d = modes.first_diff(R.read(saved, 80), tuple(want))
+    if d:
+        return ("saved-form", "the saved key is not the canonical byte form of the pre-computed states (it would not load under "
+                "another back end): differs at %s" % d)
     pk2 = R.obj(80)
     R.call(prefix + "_aead_load_key", pk2, saved)
     if R.read(pk2, 80) != before:
